@@ -463,7 +463,15 @@ def _do_settings(rec: dict, unit: dict):
 
 
 def _do_pairs(rec: dict, unit: dict):
-    """Ordered pairs / triples of actions on co-located targets (harness/rigs/c01_pairs.py)."""
+    envrig.CHECK_REQUESTS = True
+    try:
+        _do_pairs_inner(rec, unit)
+    finally:
+        envrig.CHECK_REQUESTS = False
+
+
+def _do_pairs_inner(rec: dict, unit: dict):
+    """Ordered pairs / triples of actions on co-located targets, every action type, optional fields omitted (harness/rigs/c01_pairs.py)."""
     from harness.rigs import c01_pairs as cp
     cfg, notes = _resolve_cfg(unit)
     rec["notes"] += [n for n in notes if n != "scenario-given-a-minimal-proxy-agent"]
@@ -471,7 +479,18 @@ def _do_pairs(rec: dict, unit: dict):
         return
     rng: Rng = unit["rng"]
     plan = cp.Plan(cfg)
-    plan.build(unit["group"], rng, unit["thorough"], unit["cross_cap"], unit["triple_cap"], unit["dedupe"], unit.get("same_cap", 10 ** 9))
+    if unit.get("io_on"):       # the save_* options that write per-episode files, ON (files go to a scratch directory)
+        import tempfile
+        from pathlib import Path
+        import primaite.session.io as pio
+        pio.PRIMAITE_PATHS.user_sessions_path = Path(tempfile.mkdtemp(prefix="c01_io_"))
+        cfg = copy.deepcopy(cfg)
+        cfg.setdefault("io_settings", {}).update({"save_agent_actions": True, "save_step_metadata": True, "save_agent_logs": True})
+        plan = cp.Plan(cfg)
+    if unit["group"] in ("every", "optional"):
+        plan.build_variants(unit["group"])
+    else:
+        plan.build(unit["group"], rng, unit["thorough"], unit["cross_cap"], unit["triple_cap"], unit["dedupe"], unit.get("same_cap", 10 ** 9))
     for k, v in plan.stats.items():
         _count(rec, f"pairs:{unit['label']}:{k}", v)
     if not plan.segments:
@@ -504,6 +523,8 @@ def _do_pairs(rec: dict, unit: dict):
         for sg in segs:
             ops += sg["ops"]
         ops.append(0)
+        if unit.get("io_on"):       # an episode's files are written by the NEXT reset (and by close()): keep every episode self-contained
+            ops += [["reset", 1, None]] + ([0, ["close"]] if k == len(eps) - 1 else [])
         p = envrig.play(env, ops, max_len, announce=not history)
         history += ops
         desc = " | ".join(f"{sg['node']}:" + ">".join(f"{i}({t})" for i, t in sg["steps"]) for sg in segs[:3])
@@ -632,6 +653,11 @@ def _phase1(ctx: Ctx, rng: Rng) -> List[dict]:
                           "cross_cap": ctx.scale(30, 40 if big else 400), "triple_cap": ctx.scale(0, 20 if big else 150), "max_steps": 40,
                           "episode_cap": (6 if big else None) if ctx.thorough else None,
                           "weight": {"application": 25, "service": 12}.get(group, 5) * (3 if ctx.thorough else 1)})
+        for group, io_on in (("every", True), ("optional", False)):
+            if big:
+                continue
+            units.append({"kind": "pairs", "label": name, "scenario": name, "group": group, "io_on": io_on, "rng": r_pairs.fork(name + group),
+                          "thorough": False, "dedupe": True, "cross_cap": 0, "triple_cap": 0, "max_steps": 40, "weight": 6})
     from harness.rigs import c01_settings as cs
     r_set = rng.fork("settings")
     for atype in ("periodic-agent", "red-database-corrupting-agent", "probabilistic-agent", "random-agent"):
@@ -768,7 +794,11 @@ def replay(rec: dict) -> bool:
     ops = rp.get("ops")
     if ops is None:      # records written by the first version of the check: "reset" entries without a seed
         ops = [["reset", rp.get("seed"), None] if a == "reset" else a for a in rp.get("log", [])]
-    p = envrig.run_ops(_cfg_of(rp), ops, rp.get("max_len"), marl=rp.get("marl") or False)
+    envrig.CHECK_REQUESTS = (rp.get("failure") or {}).get("kind") == "handler-mutated-its-request"
+    try:
+        p = envrig.run_ops(_cfg_of(rp), ops, rp.get("max_len"), marl=rp.get("marl") or False)
+    finally:
+        envrig.CHECK_REQUESTS = False
     if p.fails:
         return False
     exe = LEAN / ".lake" / "build" / "bin" / EXE
